@@ -779,6 +779,14 @@ func (e *Engine) obligationPanic(st *State, kind, label string, ok Term) {
 	st.Assume(ok)
 }
 
+// oldOf: the state `old(...)` refers to on this path.
+func (e *Engine) oldOf(st *State) *State {
+	if st != nil && st.base != nil {
+		return st.base
+	}
+	return e.entry
+}
+
 func (e *Engine) checkOnPanic(st *State) {
 	if e.rootC == nil {
 		return
